@@ -1191,21 +1191,21 @@ def run_C15(ctx, rng, tier, res, known):
     res.extra["paths"] = pc
     for c in ctx.cfgs:
         model = run_model(c, "release", lines)
-        for p in ["release"]:
+        for p in ctx.profiles:        # release and the checked profile (`cfg(debug_assertions)` code allocates too)
             impl = run_impl(c, p, lines)
             for i, line in enumerate(lines):
                 I = impl[i]
                 m, trap, s = _mod().parse_model(model[i])
                 res.evals += 1
                 if not I.startswith("v "):
-                    res.viol.append(("panic", dict(case=line, cfg=c, impl=I)))
+                    res.viol.append(("panic", dict(case=line, cfg=c, profile=p, impl=I)))
                     continue
                 n = int(I.split()[3])
                 if paths[i] == "slow":
                     res.nontrivial.add(line)
                 if "alloc" not in c:
                     if n != 0:
-                        res.viol.append(("heap-allocation", dict(case=line, cfg=c, allocations=n, path=paths[i])))
+                        res.viol.append(("heap-allocation", dict(case=line, cfg=c, profile=p, allocations=n, path=paths[i])))
                 else:
                     # instrumentation is validated where it is non-zero
                     want = m.split()[3]
